@@ -341,6 +341,9 @@ def run():
     import translate_config
 
     facts["translated_config"] = translate_config.run()
+    import translate_loader
+
+    facts["translated_loader"] = translate_loader.run()
     return facts
 
 
